@@ -116,6 +116,25 @@ fn request_line() -> impl Strategy<Value = String> {
     })
 }
 
+/// Requests whose params fit the method (well-typed most of the time).
+fn coherent_request() -> impl Strategy<Value = String> {
+    let mp = prop_oneof![
+        proptest::sample::select(vec!["classic", "enhanced"]).prop_map(|m| ("set_mode", format!("{{\"mode\":\"{m}\"}}"))),
+        any::<bool>().prop_map(|b| ("set_quality", format!("{{\"enabled\":{b}}}"))),
+        any::<bool>().prop_map(|b| ("set_stall_deselect", format!("{{\"enabled\":{b}}}"))),
+        ms_frag().prop_map(|m| ("set_conn_timeout", format!("{{\"ms\":{m}}}"))),
+        Just(("get_status", "{}".to_string())),
+        Just(("get_stats", "null".to_string())),
+    ];
+    (mp, id_frag(), prop::bool::weighted(0.9)).prop_map(|((m, p), id, v2)| {
+        let ver = if v2 { "2.0" } else { "1.0" };
+        match id {
+            Some(i) => format!("{{\"jsonrpc\":\"{ver}\",\"id\":{i},\"method\":\"{m}\",\"params\":{p}}}"),
+            None => format!("{{\"jsonrpc\":\"{ver}\",\"method\":\"{m}\",\"params\":{p}}}"),
+        }
+    })
+}
+
 fn json_value(depth: u32) -> BoxedStrategy<String> {
     let leaf = prop_oneof![
         Just("null".to_string()),
@@ -141,6 +160,7 @@ fn json_value(depth: u32) -> BoxedStrategy<String> {
 fn any_line() -> impl Strategy<Value = String> {
     prop_oneof![
         6 => request_line(),
+        6 => coherent_request(),
         2 => json_value(3),
         1 => vec(any::<u8>(), 0..80).prop_map(|b| String::from_utf8_lossy(&b).replace(['\n', '\r'], " ")),
         1 => request_line().prop_map(|s| s[..s.len() / 2].to_string()),
